@@ -28,6 +28,13 @@ def run(rep, db, tier, seed):
     rep.assumptions += ['reachable-state invariant assumed for the pre-state (see C03)', 'at most f weight is Byzantine: used only by the paper argument, not by any obligation here']
     rep.bounds = dict(steps=1, committee='N = 2 (quick), 2..3 (thorough), symbolic weights', caches='<= 1 entry', proposal_cache='<= 2 block numbers x <= 2 payloads (save_block)')
     RC.run_all(rep, db, tier, ('C02', 'C03', 'C05'))
+    # restart: nothing durable is lost (view / phase / high vote / certificates / cached proposals come back) — a replica that
+    # forgets a cached proposal on restart can no longer build the block its vote helped to certify
+    try:
+        from props import replica_start
+        replica_start.run(rep, db, tier)
+    except Exception as u:
+        rep.add(F.Obligation('restart restores the durable snapshot (StateMachine::start)', 'inconclusive', f'{type(u).__name__}: {u}'[:600]))
     try:
         from props import replica_block
         replica_block.run(rep, db, tier)
